@@ -107,6 +107,8 @@ class Run:
                 if f is not None:
                     self.k.trace_lines(f)
         self.net.send_hooks.append(self._on_send)
+        self.sd_logged = set()
+        self.net.exit_hooks.append(self._on_exit)
         self._wrap_servers()
 
     # ---- observers
@@ -123,6 +125,12 @@ class Run:
                 i = _task_id_of(t)
                 if i:
                     rtprog.ev('Forward', t=i, w=wid)
+
+    def _on_exit(self, node, how):
+        if node in self.sd_logged and how == 'exit':
+            return                       # a boss already reported at the start of its handle_shutdown
+        self.sd_logged.add(node)
+        rtprog.ev('NodeExit', node=node, how=how)
 
     def _wrap_servers(self):
         import bqskit.runtime.base as B
@@ -146,6 +154,21 @@ class Run:
             self_.handle_message = handle_message
             return orig_run(self_)
         B.ServerBase.run = wrapped_run
+        # a boss "stops" (for Shutdown.tla) when it STARTS handle_shutdown: that is when its employees are told;
+        # its process ends only after it has waited for them
+        import bqskit.runtime.detached as D
+        import bqskit.runtime.manager as Mg
+        for cls in (D.DetachedServer, Mg.Manager, B.ServerBase):
+            orig_sd = cls.handle_shutdown
+
+            def wrapped_sd(self_, _orig=orig_sd):
+                node = sim.CUR.node()
+                r = B.ServerBase._verif_run
+                if node not in r.sd_logged and node not in sim.CUR.dead and node in sim.CUR.servers and sim.CUR.servers[node] is self_:
+                    r.sd_logged.add(node)
+                    rtprog.ev('NodeExit', node=node, how='exit')
+                return _orig(self_)
+            cls.handle_shutdown = wrapped_sd
 
     def _boss_state(self, srv, node):
         try:
@@ -352,7 +375,7 @@ class Run:
         evs = []
         defaults = {'t': 0, 'f': 0, 'v': [], 'kids': [], 'w': 0, 'c': 0, 'call': '', 'cid': 0, 'kind': '', 's': '', 'cause': '',
                     'boom': [], 'text': '', 'node': '', 'total': 0, 'idle': 0, 'emps': [], 'blocked': [], 'alive': [],
-                    'residue': [], 'srv': [0, 0, 0], 'final': False, 'settled': False, 'ok': False}
+                    'residue': [], 'srv': [0, 0, 0], 'final': False, 'settled': False, 'ok': False, 'how': ''}
         for e in rtprog.LOG:
             d = dict(defaults)
             d.update(e)
